@@ -171,13 +171,29 @@ fn o_hint(h: (usize, Option<usize>)) -> String {
 
 /// history of calls on a double-ended exact-size iterator: `n` next, `b` next_back, `l` len,
 /// `c` by_ref().count(), `a` by_ref().last(), `t..z` nth(k), `T..Z` nth_back(k), `h` size_hint()
-fn iterhist<I>(mut it: I, ops: &str) -> String
+/// (the iterator is driven *directly* — not through `map` or another adaptor, which would replace an
+/// overridden `nth` / `nth_back` / `count` / `last` by the provided method; `conv` is applied to the results)
+fn iterhist<I, V: Into<u128>>(it: I, ops: &str, conv: impl Fn(I::Item) -> V) -> String
 where
     I: DoubleEndedIterator + ExactSizeIterator,
-    I::Item: Into<u128>,
 {
+    let o_item = |v: Option<I::Item>| o_item(v.map(&conv));
     let mut out = vec![];
+    let mut slot = Some(it);
     for c in ops.chars() {
+        // terminal calls that consume the iterator itself (so that an overridden `count` / `last` / `fold` /
+        // `rfold` is reached — `by_ref()` goes through `try_fold`): `#` count, `$` last, `%` fold, `^` rev().fold
+        if "#$%^".contains(c) {
+            let it = slot.take().unwrap();
+            out.push(match c {
+                '#' => format!("V:{}", it.count()),
+                '$' => o_item(it.last()),
+                '%' => o_list(it.fold(vec![], |mut a, x| { a.push(conv(x).into()); a })),
+                _ => o_list(it.rev().fold(vec![], |mut a, x| { a.push(conv(x).into()); a })),
+            });
+            break;
+        }
+        let it = slot.as_mut().unwrap();
         match c {
             'n' => out.push(o_item(it.next())),
             'b' => out.push(o_item(it.next_back())),
@@ -194,14 +210,26 @@ where
     out.join(" ")
 }
 
-/// the same for one-ended iterators: `n` next, `c` count, `a` last, `t..z` nth(k)
-pub fn fwdhist<I>(mut it: I, ops: &str) -> String
+/// the same for one-ended iterators: `n` next, `c` count, `a` last, `t..z` nth(k), `h` size_hint(), and the
+/// terminal consuming calls `#` count, `$` last, `%` fold
+pub fn fwdhist<I, V: Into<u128>>(it: I, ops: &str, conv: impl Fn(I::Item) -> V) -> String
 where
     I: Iterator,
-    I::Item: Into<u128>,
 {
+    let o_item = |v: Option<I::Item>| o_item(v.map(&conv));
     let mut out = vec![];
+    let mut slot = Some(it);
     for c in ops.chars() {
+        if "#$%".contains(c) {
+            let it = slot.take().unwrap();
+            out.push(match c {
+                '#' => format!("V:{}", it.count()),
+                '$' => o_item(it.last()),
+                _ => o_list(it.fold(vec![], |mut a, x| { a.push(conv(x).into()); a })),
+            });
+            break;
+        }
+        let it = slot.as_mut().unwrap();
         match c {
             'c' => out.push(format!("V:{}", it.by_ref().count())),
             'a' => out.push(o_item(it.by_ref().last())),
@@ -243,7 +271,7 @@ macro_rules! impl_tree {
                     "select_unchecked" => o_val(unsafe { self.select_unchecked(sym(0), pos(1)) }),
                     "rank_prefetch" => impl_tree!(@pf $quad, self, sym(0), pos(1)),
                     "rank_prefetch_unchecked" => impl_tree!(@pfu $quad, self, sym(0), pos(1)),
-                    "iterhist" => iterhist(self.iter().map(|x| U128Of(x)), s),
+                    "iterhist" => iterhist(self.iter(), s, |x| U128Of(x)),
                     "iter" => o_list(self.iter().map(|x| x.to_u128())),
                     "iter_ref" => o_list((&*self).into_iter().map(|x| x.to_u128())),
                     _ => "bad-op".into(),
@@ -1038,8 +1066,8 @@ impl Interp {
                 "get_unchecked" => o_val(unsafe { q.get_unchecked(g(0)) } as usize),
                 "iter" => o_list(q.iter().map(|x| x as u128)),
                 "into_iter" => o_list(q.clone().into_iter().map(|x| x as u128)),
-                "fwdhist" => fwdhist(q.iter(), args.first().copied().unwrap_or("")),
-                "fwdhist_into" => fwdhist(q.clone().into_iter(), args.first().copied().unwrap_or("")),
+                "fwdhist" => fwdhist(q.iter(), args.first().copied().unwrap_or(""), |x| x),
+                "fwdhist_into" => fwdhist(q.clone().into_iter(), args.first().copied().unwrap_or(""), |x| x),
                 _ => "bad-op".into(),
             },
             Slot::Qvb(qb) => {
@@ -1049,20 +1077,20 @@ impl Interp {
                     "is_empty" => o_val(q.is_empty() as usize),
                     "get" => o_opt(q.get(g(0)).map(|x| x as usize)),
                     "iter" => o_list(q.iter().map(|x| x as u128)),
-                    "fwdhist" => fwdhist(q.iter(), args.first().copied().unwrap_or("")),
+                    "fwdhist" => fwdhist(q.iter(), args.first().copied().unwrap_or(""), |x| x),
                     _ => "bad-op".into(),
                 }
             }
-            Slot::Rsq256(r, _) if op == "fwdhist" => fwdhist(r.iter(), args.first().copied().unwrap_or("")),
-            Slot::Rsq512(r, _) if op == "fwdhist" => fwdhist(r.iter(), args.first().copied().unwrap_or("")),
-            Slot::Rsq256(r, _) if op == "fwdhist_into" => fwdhist(r.clone().into_iter(), args.first().copied().unwrap_or("")),
-            Slot::Rsq512(r, _) if op == "fwdhist_into" => fwdhist(r.clone().into_iter(), args.first().copied().unwrap_or("")),
+            Slot::Rsq256(r, _) if op == "fwdhist" => fwdhist(r.iter(), args.first().copied().unwrap_or(""), |x| x),
+            Slot::Rsq512(r, _) if op == "fwdhist" => fwdhist(r.iter(), args.first().copied().unwrap_or(""), |x| x),
+            Slot::Rsq256(r, _) if op == "fwdhist_into" => fwdhist(r.clone().into_iter(), args.first().copied().unwrap_or(""), |x| x),
+            Slot::Rsq512(r, _) if op == "fwdhist_into" => fwdhist(r.clone().into_iter(), args.first().copied().unwrap_or(""), |x| x),
             Slot::Rsq256(r, _) => rsq_q!(r, op, g),
             Slot::Rsq512(r, _) => rsq_q!(r, op, g),
             Slot::Bv(b, _) => match op {
                 "into_iter" => o_list(b.clone().into_iter().map(|x| x as u128)),
-                "fwdhist" => fwdhist(b.iter().map(|x| x as u8), args.first().copied().unwrap_or("")),
-                "fwdhist_into" => fwdhist(b.clone().into_iter().map(|x| x as u8), args.first().copied().unwrap_or("")),
+                "fwdhist" => fwdhist(b.iter(), args.first().copied().unwrap_or(""), |x| x as u8),
+                "fwdhist_into" => fwdhist(b.clone().into_iter(), args.first().copied().unwrap_or(""), |x| x as u8),
                 "n_lines" => o_val(b.n_lines()),
                 "prefetch_line" => {
                     b.prefetch_line(g(0));
@@ -1091,14 +1119,14 @@ impl Interp {
             },
             Slot::Bvm(b, _) => match op {
                 "into_iter" => o_list(b.clone().into_iter().map(|x| x as u128)),
-                "fwdhist" => fwdhist(b.iter().map(|x| x as u8), args.first().copied().unwrap_or("")),
-                "fwdhist_into" => fwdhist(b.clone().into_iter().map(|x| x as u8), args.first().copied().unwrap_or("")),
+                "fwdhist" => fwdhist(b.iter(), args.first().copied().unwrap_or(""), |x| x as u8),
+                "fwdhist_into" => fwdhist(b.clone().into_iter(), args.first().copied().unwrap_or(""), |x| x as u8),
                 _ => bv_q!(b, op, g),
             },
             Slot::Rsn(r, _) => rsbin_q!(r, op, g, wide = no),
             Slot::Rsw(r, _) => rsbin_q!(r, op, g, wide = yes),
-            Slot::Da0(d, _) if op == "fwdhist" => fwdhist(d.iter().map(|x| x as u8), args.first().copied().unwrap_or("")),
-            Slot::Da1(d, _) if op == "fwdhist" => fwdhist(d.iter().map(|x| x as u8), args.first().copied().unwrap_or("")),
+            Slot::Da0(d, _) if op == "fwdhist" => fwdhist(d.iter(), args.first().copied().unwrap_or(""), |x| x as u8),
+            Slot::Da1(d, _) if op == "fwdhist" => fwdhist(d.iter(), args.first().copied().unwrap_or(""), |x| x as u8),
             Slot::Da0(d, _) => da_q!(d, op, g),
             Slot::Da1(d, _) => da_q!(d, op, g),
             Slot::Tree(t, _) => match op {
